@@ -92,34 +92,67 @@ Proof.
     try (vm_compute; repeat constructor).
 Qed.
 
-(* ---- the premise user_hdr_ok of the round-trip theorem cannot be dropped: a user key _Delim
-   (a spelling of the reserved name that _make_header does not strip, but that the
-   case-insensitive _match_key of the reader takes for the delimiter) makes the reader treat
-   the file as text.  Everything else of the theorem's premises holds for this instance. *)
-Definition bad_hdr : hdict (list byte) := [(B "_Delim", B "','")].
-Definition bad_text : list byte := B "{'_DTYPE': [('x', '<i2')], '_Delim': ',', '_VERSION': '1.0'}".
+(* ---- what is left of the premise user_hdr_ok (a user key that spells _dtype otherwise than _DTYPE)
+   cannot be dropped from the ABSTRACT theorem: the contract H_pf says nothing about the order of the
+   evaluated dict, and the reader takes the first key that lower-cases to _dtype.  Here eval returns
+   the header in the order it was built (user keys first).  The real code is safe because pformat
+   sorts the keys and _DTYPE sorts before every other spelling. *)
+Definition bad_hdr : hdict (list byte) := [(B "_dtype", B "'f8'")].
+Definition bad_text : list byte := B "{'_dtype': 'f8', '_DTYPE': [('x', '<i2')], '_VERSION': '1.0'}".
 Definition bad_head := make_header (list byte) ex_vstr ex_vdescr bad_hdr ex_dt.
 Definition bad_pformat (_ : hdict (list byte)) : list byte := bad_text.
 Definition bad_pyeval (_ : list byte) : option (hdict (list byte)) := Some bad_head.
+Definition bad_np_dtype (v : list byte) : option dtype :=
+  if bytes_eqb v (B "[('x', '<i2')]") then Some ex_dt else None.
 
 Lemma roundtrip_needs_user_hdr_ok :
-  H_pf (list byte) eq bad_pformat bad_pyeval ex_np_dtype bad_head ex_dt
+  H_pf (list byte) eq bad_pformat bad_pyeval bad_np_dtype bad_head ex_dt
   /\ ~ user_hdr_ok (list byte) bad_hdr
   /\ ex_rows <> [] /\ rows_fit ex_dt ex_rows /\ 0 < rowsize ex_dt
-  /\ reserved (B "_Delim") = false
-  /\ sfile_read (list byte) ex_vstr dec ex_np_dtype bad_pyeval
-       (sfile_write (list byte) ex_vstr ex_vdescr bad_pformat bad_hdr ex_dt ex_rows) = Err EOther.
+  /\ reserved (B "_dtype") = false
+  /\ sfile_read (list byte) ex_vstr dec bad_np_dtype bad_pyeval
+       (sfile_write (list byte) ex_vstr ex_vdescr bad_pformat bad_hdr ex_dt ex_rows) = Err EType.
 Proof.
   split; [|split; [|split; [|split; [|split; [|split]]]]].
   - split; [reflexivity|]. exists bad_head. split; [reflexivity|]. split.
     + intro k. destruct (dget (list byte) k bad_head); reflexivity || exact I.
-    + intros v _. reflexivity.
-  - intro U. specialize (U (B "_Delim") (or_introl eq_refl)). vm_compute in U. discriminate U.
+    + intros v G. vm_compute in G. inversion G; subst. reflexivity.
+  - intro U. specialize (U (B "_dtype") (or_introl eq_refl)). vm_compute in U. discriminate U.
   - discriminate.
   - repeat constructor.
   - reflexivity.
   - reflexivity.
   - vm_compute. reflexivity.
+Qed.
+
+(* ---- _make_header as found (before /repo 04e3f20): only the all-lower and all-upper spellings of
+   the five names were removed.  A user key _Delim then survives into the file, the reader's
+   case-insensitive lookup takes the binary file for a text file; with the repaired _make_header
+   the same header round-trips. *)
+Definition deleted_keys_v0 : list (list byte) :=
+  [B "_size"; B "_SIZE"; B "_nrows"; B "_NROWS"; B "_delim"; B "_DELIM";
+   B "_shape"; B "_SHAPE"; B "_has_fields"; B "_HAS_FIELDS"].
+Definition make_header_v0 (hdr : hdict (list byte)) : hdict (list byte) :=
+  dset (list byte) (B "_VERSION") (ex_vstr sfile_version)
+    (dset (list byte) (B "_DTYPE") (ex_vdescr ex_dt)
+       (fold_left (fun h k => ddel (list byte) k h) deleted_keys_v0 hdr)).
+Definition mc_hdr : hdict (list byte) := [(B "_Delim", B "','"); (B "keep", B "1")].
+Definition mc_pyeval_v0 (_ : list byte) : option (hdict (list byte)) := Some (make_header_v0 mc_hdr).
+Definition mc_head := make_header (list byte) ex_vstr ex_vdescr mc_hdr ex_dt.
+Definition mc_pyeval (_ : list byte) : option (hdict (list byte)) := Some mc_head.
+
+Lemma unrepaired_make_header_refuted :
+  user_hdr_ok (list byte) mc_hdr
+  (* as found: _Delim survives, the read fails *)
+  /\ dget (list byte) (B "_Delim") (make_header_v0 mc_hdr) = Some (B "','")
+  /\ sfile_read (list byte) ex_vstr dec ex_np_dtype mc_pyeval_v0 (sfile_file w_text_field ex_rows) = Err EOther
+  (* repaired: _Delim is stripped, the other key is kept, the read returns the table *)
+  /\ dget (list byte) (B "_Delim") mc_head = None /\ dget (list byte) (B "keep") mc_head = Some (B "1")
+  /\ exists h, sfile_read (list byte) ex_vstr dec ex_np_dtype mc_pyeval (sfile_file w_text_field ex_rows) = Ok (ex_dt, ex_rows, h).
+Proof.
+  split. { intros k I. cbn in I. destruct I as [<-|[<-|[]]]; reflexivity. }
+  split; [reflexivity|]. split; [vm_compute; reflexivity|]. split; [reflexivity|]. split; [reflexivity|].
+  eexists. vm_compute. reflexivity.
 Qed.
 
 (* ---- a closed instance of the unconditional round trip (Uncond.v): header values of every kind *)
